@@ -61,7 +61,7 @@ Params(f) ==
     [] f = "Blake" -> [ref_density |-> Pick({<<3, 1>>, <<5, 2>>}, {}), cavity_radius |-> Pick({<<1, 10>>, <<2, 25>>}, {}),
                        pressure_scale |-> Pick({<<1, 1000>>, <<1, 500>>}, {}), lame_mod |-> Pick({<<25, 1>>, <<30, 1>>}, {}),
                        shear_mod |-> Pick({<<25, 1>>, <<20, 1>>}, {})]
-    [] f = "Rod1D" -> [kappa |-> Pick({<<1, 1>>, <<1, 2>>}, {}), L |-> Pick({<<2, 1>>, <<3, 1>>}, {}), TL |-> Pick({<<3, 1>>, <<1, 1>>}, {}),
+    [] f = "Rod1D" -> [kappa |-> Pick({<<1, 1>>, <<1, 2>>}, {}), L |-> Pick({<<2, 1>>, <<3, 1>>}, {}), TL |-> Pick({<<3, 1>>, <<0, 1>>}, {<<1, 1>>}),
                        TR |-> Pick({<<3, 1>>, <<4, 1>>}, {}), bc |-> {"BC1", "BC2", "BC3", "BC4"}]
     [] f = "RodNH" -> \* non-homogeneous and Robin boundary conditions: alpha T + beta dT/dx = gamma at both ends
                       [kappa |-> Pick({<<1, 1>>, <<1, 2>>}, {}), L |-> Pick({<<2, 1>>}, {<<3, 1>>}), TL |-> Pick({<<3, 1>>, <<1, 1>>}, {}),
@@ -69,7 +69,7 @@ Params(f) ==
                        g1 |-> Pick({<<2, 1>>, <<0, 1>>}, {<<-1, 1>>}), g2 |-> Pick({<<1, 1>>, <<0, 1>>}, {<<2, 1>>})]
     [] f = "Sandwich" -> [kind |-> {"PlanarSandwich", "PlanarSandwichHot", "PlanarSandwichHalf"}, kappa |-> Pick({<<1, 1>>, <<1, 2>>}, {}),
                           L |-> Pick({<<2, 1>>, <<3, 1>>}, {}), TL |-> Pick({<<0, 1>>, <<3, 1>>}, {}), TR |-> Pick({<<0, 1>>, <<2, 1>>}, {}),
-                          b1 |-> Pick({<<1, 1>>, <<2, 1>>}, {}), b2 |-> Pick({<<0, 1>>, <<1, 2>>}, {})]
+                          b1 |-> Pick({<<1, 1>>, <<0, 1>>}, {<<2, 1>>}), b2 |-> Pick({<<0, 1>>, <<1, 2>>}, {})]     \* zero is an admissible boundary value
     [] f = "RiemannJWL" -> \* the two JWL problems shipped with the repository, with rescaled left density / right pressure and a left velocity
                            [case |-> {"Shyue", "Lee"}, rscale |-> Pick({<<1, 1>>, <<6, 5>>}, {<<4, 5>>}), pscale |-> Pick({<<1, 1>>, <<3, 2>>}, {}),
                             ul |-> Pick({<<0, 1>>, <<1, 5>>}, {<<-1, 5>>})]
